@@ -25,6 +25,7 @@ def dispatch (engine : String) (c i : List String) : Option Res :=
   | "seqcut" => seqcutEngine c i
   | "par" => parEngine c i
   | "parstress" => parstressEngine c i
+  | "seqorder" => seqorderEngine c i
   | "ex" => exEngine c i
   | "viz" => vizEngine c i
   | "exmodel" => exmodelEngine c i
